@@ -386,3 +386,35 @@ def check_line_graph_prefilter(ctx, res, dotted="projections.line_graph", rule="
             res.violation(rule, f, norm(filt[0])[:110], "vertex-population", f"the hyperedges that receive a vertex id are filtered (`{norm(cond)[:50]}`) before the ids are assigned: a hyperedge that fails the filter has no vertex in the line graph, so it gets no centrality value at all (and the normalisation of the others changes) - the s-line graph has one vertex per hyperedge whatever its size", loc(v.fi, filt[0]))
         else:
             res.ok(rule, f, norm(lp.iter)[:80], "vertex-population", loc(v.fi, lp))
+
+
+def check_label_free_ids(ctx, res, dotted="projections.bipartite_projection", rule="K-VID"):
+    """The vertex ids of the bipartite projection are a kind prefix plus a COUNTER ("N0", "E3").  The node centralities tell node
+    vertices from hyperedge vertices by looking at the id text (`"E" not in k`): an id that embeds the node LABEL ("N" + str(node))
+    makes that test look inside the label - node "Eve" is taken for a hyperedge vertex and gets no value."""
+    v = ctx.view(dotted)
+    f = v.fi.short
+    n = 0
+    for e in walk_no_nested(v.fi.node):
+        parts = []
+        if isinstance(e, ast.BinOp) and isinstance(e.op, ast.Add) and isinstance(e.left, ast.Constant) and isinstance(e.left.value, str):
+            parts = [e.right]
+        elif isinstance(e, ast.JoinedStr):
+            parts = [x.value for x in e.values if isinstance(x, ast.FormattedValue)]
+        elif isinstance(e, ast.Call) and isinstance(e.func, ast.Attribute) and e.func.attr == "format" and isinstance(e.func.value, ast.Constant):
+            parts = list(e.args)
+        for p_ in parts:
+            inner = p_.args[0] if isinstance(p_, ast.Call) and isinstance(p_.func, ast.Name) and p_.func.id in ("str", "repr") and p_.args else p_
+            try:
+                k = strip_none(v.kind(inner))
+            except Exception:
+                continue
+            n += 1
+            if isinstance(k, Atom) and k.name == "NODE":
+                res.violation(rule, f, norm(e)[:80], "label-free-ids", f"the vertex id `{norm(e)[:40]}` embeds the node LABEL: the node centralities separate node vertices from hyperedge vertices by the text of the id (`\"E\" not in id`), so a node whose label contains an `E` is dropped from every node-level centrality - ids are a prefix plus a counter", loc(v.fi, e))
+            elif isinstance(k, (Seq, Tup)):
+                res.violation(rule, f, norm(e)[:80], "label-free-ids", f"the vertex id `{norm(e)[:40]}` embeds the hyperedge itself (the text of its node labels): the id-text test that separates node vertices from hyperedge vertices then depends on the labels", loc(v.fi, e))
+            else:
+                res.ok(rule, f, norm(e)[:80], "label-free-ids", loc(v.fi, e))
+    if n == 0:
+        res.unknown(rule, f, '"N" + str(idx)', "label-free-ids", "the construction of the vertex ids was not recognised", loc(v.fi, v.fi.node))
